@@ -169,6 +169,7 @@ def t_helpers(spec):
     spec.assumptions |= s2.assumptions
 
 
+t_helpers.shards = 16
 TASKS = [C06.h_execute_traced, C06.h_execute_untraced, t_helpers]
 
 
